@@ -172,7 +172,7 @@ def proof_leg(prop, log):
         res['ok'] = False
         res['problems'].append('Coq Makefile missing: run bin/setup')
         return res
-    r = sh('timeout 3000 make -j16', cwd=coq)
+    r = sh('flock %s timeout 3000 make -j16' % os.path.join(BUILD, '.lock'), cwd=coq)
     res['checker_cmd'] = 'bin/gen-tables && (cd coq && coq_makefile -f _CoqProject -o Makefile && make -j16) && coqc -Q coq SJ coq/props/%s.v  # Coq 8.16.1, full .vo build; Print Assumptions audited' % prop
     log.append('make: rc=%d %.1fs tables_changed=%s' % (r.returncode, time.time() - t0, tables_changed))
     if r.returncode != 0:
@@ -203,7 +203,7 @@ def proof_leg(prop, log):
     thms = re.findall(r'^\s*(?:Theorem|Lemma|Corollary|Example)\s+([A-Za-z0-9_\']+)', src_nc, flags=re.M)
     res['theorems'] = thms
     res['obligations'] = len(thms)
-    r = sh(['timeout', '900', 'coqc', '-Q', '.', 'SJ', os.path.join('props', prop + '.v')], cwd=coq)
+    r = sh(['flock', os.path.join(BUILD, '.lock'), 'timeout', '900', 'coqc', '-Q', '.', 'SJ', os.path.join('props', prop + '.v')], cwd=coq)
     out = r.stdout + r.stderr
     if r.returncode != 0:
         res['ok'] = False
